@@ -47,7 +47,7 @@ type hEnv struct {
 	// age closes the engine, rewrites the stored change log so that every
 	// event is two hours older, and reopens with tight retention options, so
 	// that the next commits truncate the log.
-	age     func() error
+	age func() error
 	// ageMinSize overrides the number of events kept after ageing (default 2)
 	ageMinSize int
 	cleanup    func()
